@@ -404,6 +404,7 @@ def apply_loops(body, loops):
         binder, payload = loops[k][0], loops[k][1]
         bodystart = loops[k][2] if len(loops[k]) > 2 else []
         loopend = loops[k][3] if len(loops[k]) > 3 else []
+        bodyend = loops[k][4] if len(loops[k]) > 4 else []
         o = find_at_depth0(m_, pos, len(m_), ["{"])
         if o < 0:
             raise AnchorLost("loop #%d has no body" % k)
@@ -414,6 +415,10 @@ def apply_loops(body, loops):
             # position-only insert right after the closing brace of the loop
             c = match_close(m_, o)
             body = body[:c + 1] + "\n" + "".join(indent[:-4] + l + "\n" for l in loopend) + body[c + 1:]
+        if bodyend:
+            # position-only insert at the end of the loop body
+            c = match_close(m_, o)
+            body = body[:c] + "".join(indent + l + "\n" for l in bodyend) + indent[:-4] + body[c:]
         if bodystart:
             # position-only insert at the start of the loop body (no anchor in the body text)
             body = body[:o + 1] + "\n" + "".join(indent + l + "\n" for l in bodystart) + body[o + 1:]
@@ -710,13 +715,14 @@ def parse_template(tpl_text, base_dir=None, hashes=None):
             a = parse_attrs(" ".join(toks[1:]))
             payload = []
             prev = cur.loops.get(k)
-            cur.loops[k] = (a.get("binder"), payload, prev[2] if prev else [], prev[3] if prev else [])
+            cur.loops[k] = (a.get("binder"), payload, prev[2] if prev else [], prev[3] if prev else [], prev[4] if prev else [])
             target = payload
-        elif word in ("loopstart", "loopend"):
+        elif word in ("loopstart", "loopend", "loopbodyend"):
             k = int(rest.split()[0])
             payload = []
-            prev = cur.loops.get(k) or (None, [], [], [])
-            cur.loops[k] = (prev[0], prev[1], payload, prev[3]) if word == "loopstart" else (prev[0], prev[1], prev[2], payload)
+            prev = list(cur.loops.get(k) or (None, [], [], [], []))
+            prev[{"loopstart": 2, "loopend": 3, "loopbodyend": 4}[word]] = payload
+            cur.loops[k] = tuple(prev)
             target = payload
         elif word == "start":
             # position-only insert: right after the opening brace of the function body (no anchor in the body text)
